@@ -788,27 +788,78 @@ def _is_oserror_class(ck, name) -> bool:
     return False
 
 
+BACKEND_ROOT = "storage.StorageBackend"
+
+
+def _callees(ck, fa, call):
+    for (c, cands, _how) in ck.cg.edges.get(fa.qual, []):
+        if c is call:
+            return cands
+    return []
+
+
+def is_backend_write(ck, fa, c):
+    """Is `c` the call that hands a result to the storage backend: `<backend>.memoize(...)`, the receiver being the
+    backend by type (a parameter / field / attribute of a per-call object that the call graph types as a
+    StorageBackend) or, failing a type, the runner's `storage_backend` parameter through local aliases."""
+    if A.call_attr(c) != "memoize" or A.call_recv(c) is None or not fa.nodes(c):
+        return False
+    base = ck.repo.cls(BACKEND_ROOT)
+    backends = {k.qual for k in ck.repo.subclasses(base, strict=False)}
+    if any(h.cls is not None and h.cls.qual in backends for h in _callees(ck, fa, c)):
+        return True
+    return fa.xnorm(A.call_recv(c), fa.nodes(c)[0]) == "storage_backend"
+
+
+def same_module_reach(ck, root, stop=()):
+    """The function and the functions of its module that it reaches through resolved calls (helpers, methods of
+    per-call objects, nested closures), in breadth-first order, as FA bundles."""
+    fas = {root.qual: root}
+    order = [root]
+    i = 0
+    while i < len(order) and len(order) < 60:
+        f = order[i]
+        i += 1
+        for (_call, cands, _how) in ck.cg.edges.get(f.qual, []):
+            for h in cands:
+                if h.module is root.fi.module and h.qual not in fas and h.qual not in stop:
+                    fas[h.qual] = FA(ck, h)
+                    order.append(fas[h.qual])
+    return order
+
+
+def write_attempt_walk(ck):
+    """Where the local runner offers a computed result to the store, wherever a restructuring put it: in
+    memento_run_local itself or in a function of the same module that it reaches (a helper the front end could not
+    fold back, a method of a per-call object, a nested closure / generator).
+    -> (host FA, {qual: FA}, {qual: [write calls]}, {qual: [write calls + calls that lead to one]})"""
+    host = FA(ck, "runner_local.memento_run_local")
+    order = same_module_reach(ck, host)
+    fas = {f.qual: f for f in order}
+    sites = {}
+    for f in order:
+        cs = [c for c in f.calls("memoize") if is_backend_write(ck, f, c)]
+        if cs:
+            sites[f.qual] = cs
+    targets = {q: list(cs) for (q, cs) in sites.items()}
+    changed = True
+    while changed:
+        changed = False
+        for f in order:
+            for (call, cands, _how) in ck.cg.edges.get(f.qual, []):
+                if any(h.qual in targets and h.qual != f.qual for h in cands) and f.nodes(call) and not any(call is t for t in targets.get(f.qual, [])):
+                    targets.setdefault(f.qual, []).append(call)
+                    changed = True
+    return host, fas, sites, targets
+
+
 def check_recovery(ck):
     R = "C08.R3"
     ck.rule(R, "absorb and recover: I/O errors are absorbed around memoize in the local runner, around the read in "
                "process_existing_memento (=> not valid => recompute) and around the memento read in get_mementos "
                "(=> None); the partition-merge failure is an OSError", 4)
-    rl0 = FA(ck, "runner_local.memento_run_local")
-    sites = [(rl0, c) for c in rl0.calls("memoize") if rl0.nodes(c) and rl0.xnorm(A.call_recv(c), rl0.nodes(c)[0]) == "storage_backend"]
-    if not sites:
-        # the write was moved into a helper that the front end could not fold back (e.g. it returns from inside
-        # the try): the clause is decided inside that helper, on the parameter that receives the backend
-        for (call, cands, how) in ck.cg.edges.get(rl0.qual, []):
-            for h in cands:
-                if h.module is not rl0.fi.module or h.cls is not None:
-                    continue
-                fh = FA(ck, h)
-                for c in fh.calls("memoize"):
-                    rv = A.call_recv(c)
-                    if isinstance(rv, ast.Name) and rv.id in h.params:
-                        passed = A.arg_or_kw(call, h.params.index(rv.id), rv.id)
-                        if passed is not None and rl0.nodes(call) and rl0.xnorm(passed, rl0.nodes(call)[0]) == "storage_backend":
-                            sites.append((fh, c))
+    rl0, _fas, per_fn, _targets = write_attempt_walk(ck)
+    sites = [(_fas[q], c) for q in per_fn for c in per_fn[q]]
     ck.need(sites, "runner_local.memento_run_local: expected storage_backend.memoize call, found none")
     for (rl, c) in sites:
         trys = _try_around(rl, c)
@@ -885,13 +936,170 @@ def check_recovery(ck):
                 ck.ob(R, ps.key(r, "io-signal"), ok, "merge failure is signalled as an I/O error (absorbed by the runner)" if ok else
                       "merge failure is signalled as %s, which the runner does not absorb" % nm, ps.where(r))
     # the runner's second use of process_existing_memento treats 'not valid' as 'compute'
-    for qual in ("runner_local.memento_run_local", "runner_local.LocalRunnerBackend.batch_run"):
+    anchors = ("runner_local.memento_run_local", "runner_local.LocalRunnerBackend.batch_run")
+    for qual in anchors:
         f = FA(ck, qual)
-        pcs = f.some(f.calls("process_existing_memento"), "process_existing_memento call")
-        tests = [n for n in f.cfg.nodes if n.kind == "test" and n.id in f.cfg.reachable_nodes()
-                 and any(_is_valid_flag(f, x, n.id) for x in ast.walk(n.ast))]
+        group = [f]
+        if not f.calls("process_existing_memento"):
+            # the replay step was moved into a function of the module that the front end could not fold back
+            # (a nested generator, a method of a per-call object): the flag is looked for where the call went
+            group = [g for g in same_module_reach(ck, f, stop=[a for a in anchors if a != qual]) if g.calls("process_existing_memento")]
+        ck.need(group, "%s: expected process_existing_memento call, found none" % qual)
+        tests = [n for g in group for n in g.cfg.nodes if n.kind == "test" and n.id in g.cfg.reachable_nodes()
+                 and any(_is_valid_flag(g, x, n.id) for x in ast.walk(n.ast))]
         ck.ob(R, f.key(None, "valid-flag-tested"), bool(tests), "the valid flag decides between serve and compute" if tests else
               "%s does not branch on valid_result" % qual, f.where())
+
+
+# What the store itself says about a call: the only things that may decide that a computed result is NOT written.
+STORE_ANSWERS = ("is_memoized", "is_all_memoized", "get_memento", "get_mementos", "process_existing_memento", "all_mementos_exist",
+                 "read_result", "read_metadata")
+
+
+def _atoms_of(test):
+    """The atomic conditions of a branch test (operands of and / or / not, recursively)."""
+    if isinstance(test, ast.BoolOp):
+        return [a for v in test.values for a in _atoms_of(v)]
+    if isinstance(test, ast.UnaryOp) and isinstance(test.op, ast.Not):
+        return _atoms_of(test.operand)
+    return [test]
+
+
+CONTAINER_MAKERS = ("set", "dict", "list", "defaultdict", "OrderedDict", "deque", "Counter", "WeakValueDictionary", "WeakKeyDictionary", "WeakSet",
+                    "bytearray", "ChainMap", "local")
+MUTATING_METHODS = ("add", "append", "update", "extend", "insert", "setdefault", "appendleft", "pop", "popitem", "clear", "remove", "discard",
+                    "__setitem__", "__delitem__", "put", "push")
+
+
+def _process_state(fa, name):
+    """Is the non-local name `name` state of the process that outlives a call and can change: a module-level
+    container of the function's module (a set / dict / list ... literal or constructor), a module-level object
+    that some code of the module mutates (mutator method, item store / delete, augmented assignment), or a
+    module-level name that a function rebinds through `global`?  Constants, tuples of constants, aliases of named
+    constants and identity sentinels (`object()`) are not."""
+    from ..inline import _immutable_default
+    m = fa.fi.module
+    if name not in m.assigns:
+        return False
+    v = m.assigns[name]
+    if _immutable_default(v):
+        return False
+    if isinstance(v, (ast.Set, ast.Dict, ast.List, ast.ListComp, ast.SetComp, ast.DictComp)):
+        return True
+    if isinstance(v, ast.Call) and A.call_attr(v) in CONTAINER_MAKERS:
+        return True
+    for n in ast.walk(m.tree):
+        if isinstance(n, ast.Global) and name in n.names:
+            return True
+        if isinstance(n, ast.Call) and isinstance(n.func, ast.Attribute) and n.func.attr in MUTATING_METHODS \
+                and isinstance(n.func.value, ast.Name) and n.func.value.id == name:
+            return True
+        if isinstance(n, ast.Subscript) and isinstance(n.ctx, (ast.Store, ast.Del)) and isinstance(n.value, ast.Name) and n.value.id == name:
+            return True
+        if isinstance(n, ast.Attribute) and isinstance(n.ctx, (ast.Store, ast.Del)) and isinstance(n.value, ast.Name) and n.value.id == name:
+            return True
+    return False
+
+
+def _guard_deps(ck, fa, expr, at, depth=2, _seen=None):
+    """What the value of a guard depends on, helpers of the module included: the dependency atoms of the
+    expression, plus — for a call of a function of the same module — those of everything that function can
+    return."""
+    seen = _seen if _seen is not None else set()
+    try:
+        out = set(fa.df.deps(expr, at))
+    except Exception:  # noqa - an expression the dependency closure cannot place
+        return {"unknown:"}
+    if depth <= 0:
+        return out
+    names = {a[5:] for a in out if a.startswith("call:")}
+    for (_call, cands, _how) in ck.cg.edges.get(fa.qual, []):
+        for h in cands:
+            if h.name in names and h.module is fa.fi.module and h.qual not in seen and h.qual != fa.qual:
+                seen.add(h.qual)
+                fh = FA(ck, h)
+                for r in fh.returns():
+                    if r.value is not None:
+                        for i in fh.nodes(r)[:1]:
+                            out |= _guard_deps(ck, fh, r.value, i, depth - 1, seen)
+                # a generator helper answers through what it yields
+                for y in A.walk_body(h.node):
+                    if isinstance(y, ast.Yield) and y.value is not None and fh.nodes(y):
+                        out |= _guard_deps(ck, fh, y.value, fh.nodes(y)[0], depth - 1, seen)
+    return out
+
+
+def _attempt_guards(fa, targets):
+    """The conditions that decide whether one of `targets` (calls: the write attempt, or a call that leads to it) is
+    evaluated although the function goes on to return normally: [(test expression, cfg node, 'skips when true' /
+    'skips when false')] — branch tests one of whose branches cannot reach any target but reaches the normal
+    exit while the other branch can reach a target, and the tests of conditional expressions / short-circuit
+    operators that enclose a target inside its statement.  Loop tests are left out."""
+    cfg = fa.cfg
+    tnodes = set(fa.nodes_all(targets))
+    out = []
+    if not tnodes:
+        return out
+    live = cfg.reachable_nodes()
+    for n in cfg.nodes:
+        if n.kind != "test" or n.id not in live or n.ast is None or isinstance(fa.pm.get(n.ast), ast.While):
+            continue
+        if n.id in tnodes:
+            continue
+        br = {}
+        for (d, l) in cfg.succ[n.id]:
+            if l in ("T", "F"):
+                br.setdefault(l, []).append(d)
+        if set(br) != {"T", "F"}:
+            continue
+        r = {l: cfg.reach(br[l]) for l in br}
+        for (skip, other) in (("T", "F"), ("F", "T")):
+            if not (r[skip] & tnodes) and cfg.exit in r[skip] and (r[other] & tnodes):
+                out.append((n.ast, n.id, skip == "T"))
+    for t in targets:
+        ids = fa.nodes(t)
+        if not ids:
+            continue
+        ch = t
+        par = fa.pm.get(ch)
+        while par is not None and not isinstance(par, ast.stmt):
+            if isinstance(par, ast.IfExp) and ch is not par.test:
+                out.append((par.test, ids[0], ch is par.orelse))
+            if isinstance(par, ast.BoolOp) and par.values[0] is not ch:
+                for v in par.values[:par.values.index(ch)]:
+                    out.append((v, ids[0], isinstance(par.op, ast.Or)))
+            ch, par = par, fa.pm.get(par)
+    return out
+
+
+def check_attempt_not_remembered(ck):
+    R = "C08.R7"
+    ck.rule(R, "memoization recovers: a computed result is offered to the store unless the STORE says it already has it — "
+               "every condition under which the local runner skips the write and still returns is an answer of the storage "
+               "backend about this call, and none depends on state of the process that outlives the call (a record of "
+               "earlier failures)", 1)
+    host, fas, sites, targets = write_attempt_walk(ck)
+    ck.need(sites, "runner_local.memento_run_local: expected storage_backend.memoize call, found none")
+    want = {"call:" + x for x in STORE_ANSWERS}
+    for q in sorted(targets):
+        fa = fas[q]
+        for (test, at, _when) in _attempt_guards(fa, targets[q]):
+            for atom in _atoms_of(test):
+                if isinstance(atom, ast.Constant):
+                    continue
+                deps = _guard_deps(ck, fa, atom, at)
+                state = sorted(a[7:] for a in deps if a.startswith("global:") and _process_state(fa, a[7:]))
+                if state:
+                    ok, msg = False, ("whether a computed result is written to the store depends on `%s`, state of the process that outlives the "
+                                      "call: once it says 'skip' (e.g. after an I/O error that has long gone away) the result is never offered to "
+                                      "the store again and every later call recomputes, although a write would now succeed" % ", ".join(state))
+                elif not (deps & want):
+                    ok, msg = False, ("the write of a computed result is skipped depending on `%s`, which is not an answer of the store about this "
+                                      "call: a result computed while it holds is returned but never memoized, so later calls recompute "
+                                      "forever" % A.short(atom, 60))
+                else:
+                    ok, msg = True, "the write is skipped only on the store's own answer"
+                ck.ob(R, fa.key(atom, "attempt-guard"), ok, msg, fa.where(atom))
 
 
 def _requires_every(fa, sources):
@@ -1387,3 +1595,4 @@ def check(ck):
     ck.run(check_recovery, ck)
     ck.run(check_readers_validate, ck)
     ck.run(check_complete_or_raise, ck)
+    ck.run(check_attempt_not_remembered, ck)
